@@ -37,7 +37,7 @@ inductive Err
   | timeout | badStatus | invalidState | terminated | sessionInvalid | authSetup | unhandledMethod
   | unexpectedFrame | contentTypeMissing | contentTypeUnsupported | sdpInvalid | transportInvalid
   | serverRequestedTCP | serverRequestedUDP | invalidDelivery | serverPortsNotProvided
-  | noInterleavedIDs | invalidInterleavedIDs | interleavedIDsInUse | other
+  | noInterleavedIDs | invalidInterleavedIDs | interleavedIDsInUse | udpTimeout | tcpTimeout | other
   deriving DecidableEq, Repr, Inhabited
 
 /-- The CSeq header of a response: one value that is a number, one value that is not the decimal
@@ -104,6 +104,8 @@ inductive Ev
   | frame (ch : Nat)              -- interleaved frame
   | readErr                       -- the reader goroutine failed (EOF, unparsable input, oversized frame)
   | timer                         -- the ReadTimeout timer of waitResponse fires
+  | liveness (got stale : Bool)   -- checkTimeoutTimer fires while playing (got: a UDP packet arrived so far;
+                                  -- stale: nothing arrived for ReadTimeout)
   | close                         -- Client.Close (context cancelled)
   deriving DecidableEq, Repr, Inhabited
 
@@ -125,6 +127,7 @@ inductive Val | resp (r : Resp) | err (e : Err) | nil
 inductive AfterReset
   | redirect (loc : LocK) (n : Nat) -- doDescribe: parse Location, doDescribe again (n: redirects followed so far, this one included)
   | switchTcp (a : SetupArgs)     -- doSetup: server answered TCP to a UDP request: DESCRIBE, SETUP again
+  | switchAll (ms : List SetupArgs) -- trySwitchingProtocol: DESCRIBE, SETUP of every media over TCP, PLAY
   deriving DecidableEq, Repr, Inhabited
 
 /-- frames of the run loop's call stack at a blocking point (innermost first) -/
@@ -137,6 +140,9 @@ inductive Fr
   | setupK (a : SetupArgs) (p : Proto)
   | playK | recordK | pauseK
   | redescK (a : SetupArgs)               -- doSetup: the re-DESCRIBE of the TCP switch is running
+  | swDescK (ms : List SetupArgs)         -- trySwitchingProtocol: its doDescribe is running
+  | swSetupK (rest : List SetupArgs)      -- trySwitchingProtocol: one of its doSetup is running
+  | swPlayK                               -- trySwitchingProtocol: its doPlay is running
   | resetK (n : AfterReset) (saved : Bool) -- reset → doClose: TEARDOWN's `do` is running (saved: mustClose before it)
   deriving DecidableEq, Repr, Inhabited
 
@@ -168,6 +174,7 @@ structure St where
   backSet : Bool := false
   stdSet : Bool := false
   lastDesc : Bool := false        -- c.lastDescribeURL != nil
+  checkInitial : Bool := false    -- c.checkTimeoutInitial
   dialOk : Bool := true           -- a dial to (c.Scheme, c.Host) succeeds
   pending : Option Api := none    -- the API call runInner is serving
   stack : List Fr := []
@@ -268,7 +275,7 @@ def describeStart (s : St) (redirects : Nat) (fs k : List Fr) (retK : St → Val
     | some s1 => startDo s1 .describe false 0 (.describeK redirects :: fs) k (fun s e => retK s (.err e)) id
   else retK s (.err .invalidState)
 
-def setupStart (c : Cfg) (s : St) (a : SetupArgs) (k : List Fr) (retK : St → Val → St) : St :=
+def setupStart (c : Cfg) (s : St) (a : SetupArgs) (fs k : List Fr) (retK : St → Val → St) : St :=
   if stateIn s preStates then
     match connOpen s with
     | none => retK s (.err .other)
@@ -277,7 +284,24 @@ def setupStart (c : Cfg) (s : St) (a : SetupArgs) (k : List Fr) (retK : St → V
       if (p == .udp || p == .mcast) && c.secure then retK s1 (.err .other)
       else if a.back && !c.backch then retK s1 (.err .other)
       else if !a.ctlOk then retK s1 (.err .other)
-      else startDo s1 .setup false (tpCode s1 p) [.setupK a p] k (fun s e => retK s (.err e)) id
+      else startDo s1 .setup false (tpCode s1 p) (.setupK a p :: fs) k (fun s e => retK s (.err e)) id
+  else retK s (.err .invalidState)
+
+/-- trySwitchingProtocol / doCheckTimeout: any error of the switch leaves runInner with that error -/
+def swEnd (retK : St → Val → St) (s : St) (v : Val) : St :=
+  match v with
+  | .err e => runExit s (some e)
+  | _ => retK s v
+
+/-- undo of doPlay / doRecord when the request fails -/
+def playUndo (s : St) (back : CState) : St := { s with writer := false, allow := false, cst := back }
+
+/-- doPlay from its first line -/
+def playStart (s : St) (fs k : List Fr) (retK : St → Val → St) : St :=
+  if s.cst == .prePlay then
+    let s1 : St := { s with cst := .play, allow := s.tr == some .tcp, writer := true,
+                            checkInitial := if s.stdSet && s.tr == some .udp then true else s.checkInitial }
+    startDo s1 .play false 0 (.playK :: fs) k (fun s e => retK (playUndo s .prePlay) (.err e)) id
   else retK s (.err .invalidState)
 
 /-- `reset`: doClose (TEARDOWN when there is a connection and a base URL), then `afterReset`. -/
@@ -292,6 +316,8 @@ def afterReset (s0 : St) (n : AfterReset) (k : List Fr) (retK : St → Val → S
     | _ => describeStart { s with dialOk := true } n [] k retK
   | .switchTcp a =>
     describeStart { s with tr := some .tcp } 0 [.redescK a] k retK
+  | .switchAll ms =>
+    describeStart { s with tr := some .tcp } 0 [.swDescK ms] k (swEnd retK)
 
 def resetStart (c : Cfg) (s : St) (n : AfterReset) (k : List Fr) (retK : St → Val → St) : St :=
   if s.conn && s.baseUrl then
@@ -300,9 +326,6 @@ def resetStart (c : Cfg) (s : St) (n : AfterReset) (k : List Fr) (retK : St → 
       (fun s' _ => afterReset { s' with mustClose := s.mustClose } n k retK)
       (fun s' => afterReset { s' with mustClose := s.mustClose } n k retK)
   else afterReset s n k retK
-
-/-- undo of doPlay / doRecord when the request fails -/
-def playUndo (s : St) (back : CState) : St := { s with writer := false, allow := false, cst := back }
 
 def commitSetup (s : St) (a : SetupArgs) (p : Proto) (ch : Nat) : St :=
   { s with
@@ -355,7 +378,7 @@ def setupResp (c : Cfg) (s : St) (a : SetupArgs) (p : Proto) (r : Resp) (k : Lis
   match setupCheck c s p r with
   | .accept ch => retK (commitSetup s a p ch) (.resp r)
   | .reject e => retK s (.err e)
-  | .retryTcp => setupStart c { s with tr := some .tcp } a k retK
+  | .retryTcp => setupStart c { s with tr := some .tcp } a [] k retK
   | .switchTcp => resetStart c { s with baseUrl := true } (.switchTcp a) k retK
 
 /-- doDescribe after `do` returned a response -/
@@ -460,8 +483,26 @@ def frameRet (c : Cfg) (f : Fr) (k : List Fr) (retK : St → Val → St) (s : St
   | .redescK a =>
     match v with
     | .err e => retK s (.err e)
-    | _ => setupStart c s a k retK
+    | _ => setupStart c s a [] k retK
   | .resetK n saved => afterReset { s with mustClose := saved } n k retK
+  | .swDescK ms =>
+    match v with
+    | .err e => runExit s (some e)
+    | _ =>
+      match ms with
+      | [] => playStart s [.swPlayK] k (swEnd retK)
+      | a :: rest => setupStart c s a [.swSetupK rest] k (swEnd retK)
+  | .swSetupK rest =>
+    match v with
+    | .err e => runExit s (some e)
+    | _ =>
+      match rest with
+      | [] => playStart s [.swPlayK] k (swEnd retK)
+      | a :: rest' => setupStart c s a [.swSetupK rest'] k (swEnd retK)
+  | .swPlayK =>
+    match v with
+    | .err e => runExit s (some e)
+    | _ => retK s .nil
 
 /-- unwind: return `v` into the stack `k` (structural recursion on the stack) -/
 def resume (c : Cfg) : List Fr → St → Val → St
@@ -489,12 +530,8 @@ def startApi (c : Cfg) (s0 : St) (a : Api) : St :=
         | none => retK s (.err .other)
         | some s1 => startDo s1 .announce false 0 [.announceK] k (fun s e => retK s (.err e)) id
     else retK s (.err .invalidState)
-  | .setup a => setupStart c s a k retK
-  | .play =>
-    if s.cst == .prePlay then
-      let s1 : St := { s with cst := .play, allow := s.tr == some .tcp, writer := true }
-      startDo s1 .play false 0 [.playK] k (fun s e => retK (playUndo s .prePlay) (.err e)) id
-    else retK s (.err .invalidState)
+  | .setup a => setupStart c s a [] k retK
+  | .play => playStart s [] k retK
   | .record =>
     if s.cst == .preRecord then
       if s.tr == none then retK s (.err .other) else
@@ -505,6 +542,22 @@ def startApi (c : Cfg) (s0 : St) (a : Api) : St :=
     if s.cst == .play || s.cst == .record then
       startDo { s with writer := false } .pause false 0 [.pauseK] k (fun s e => retK { s with writer := true } (.err e)) id
     else retK s (.err .invalidState)
+
+/-- trySwitchingProtocol: reset, then DESCRIBE, SETUP of every media that was set up, PLAY, all over
+TCP; any error leaves runInner -/
+def switchStart (c : Cfg) (s : St) : St :=
+  let ms : List SetupArgs := s.chans.map fun (mi, _) => { mi := mi, back := false, ctlOk := true }
+  resetStart c s (.switchAll ms) [] (resume c [])
+
+/-- doCheckTimeout (the timer is armed by doPlay when a standard channel is set up) -/
+def checkTimeout (c : Cfg) (s : St) (got stale : Bool) : St :=
+  if s.cst != .play || !s.stdSet then s
+  else if s.tr == some .udp || s.tr == some .mcast then
+    if s.checkInitial && !s.backSet && c.proto == none && s.lastDesc then
+      let s1 : St := { s with checkInitial := false }
+      if !got then switchStart c s1 else s1
+    else if stale then runExit s (some .udpTimeout) else s
+  else if stale then runExit s (some .tcpTimeout) else s
 
 /-- waitResponse returns an error: `do` sets mustClose and returns it -/
 def waitFail (c : Cfg) (s : St) (e : Err) (k : List Fr) : St :=
@@ -537,6 +590,7 @@ def step (c : Cfg) (s : St) (e : Ev) : St :=
       | .frame _ => if s.allow then s else runExit { s with reader := false } (some .unexpectedFrame)
       | .readErr => runExit { s with reader := false } (some .other)
       | .timer => s
+      | .liveness got stale => checkTimeout c s got stale
       | .close => runExit s (some .terminated)
     | .wait m n tp :: k =>
       match e with
@@ -550,6 +604,7 @@ def step (c : Cfg) (s : St) (e : Ev) : St :=
       | .frame _ => if s.allow then s else waitFail c { s with reader := false } .unexpectedFrame k
       | .readErr => waitFail c { s with reader := false } .other k
       | .timer => waitFail c s .timeout k
+      | .liveness _ _ => s               -- waitResponse does not look at that timer
       | .close => waitFail c { s with ctxDone := true } .terminated k
     | _ => s
 
